@@ -26,7 +26,7 @@ TARGETS = {
     "pysmt/smtlib/printers.py": ["C07", "C09"], "pysmt/smtlib/parser/parser.py": ["C08", "C09"], "pysmt/walkers/dag.py": ["C14", "C15", "C20"],
     "pysmt/solvers/eager.py": ["C02"], "pysmt/formula.py": ["C06", "C04", "C03"], "pysmt/fnode.py": ["C04", "C06"],
     "pysmt/smtlib/script.py": ["C07", "C16", "C09"], "pysmt/solvers/qelim.py": ["C10"], "pysmt/optimization/goal.py": ["C18"],
-    "pysmt/utils.py": ["C07"], "pysmt/typing.py": ["C07", "C03"], "pysmt/printers.py": ["C09"], "pysmt/parsing.py": ["C09"],
+    "pysmt/utils.py": ["C07", "C01", "C04"], "pysmt/typing.py": ["C07", "C03"], "pysmt/printers.py": ["C09"], "pysmt/parsing.py": ["C09"],
     "pysmt/walkers/identitydag.py": ["C04", "C05"], "pysmt/walkers/tree.py": ["C07", "C20"], "pysmt/factory.py": ["C13"],
 }
 CMP = {ast.Lt: ast.LtE, ast.LtE: ast.Lt, ast.Gt: ast.GtE, ast.GtE: ast.Gt, ast.Eq: ast.NotEq, ast.NotEq: ast.Eq,
